@@ -509,6 +509,19 @@ PURE_STR_METHODS = ('join', 'split', 'startswith', 'endswith', 'strip', 'rstrip'
                     'encode', 'rsplit', 'partition', 'rpartition', 'isspace')
 
 
+def is_generator_def(node):
+    """does this function definition itself (not a function nested in it) contain a yield"""
+    stack = list(node.body)
+    while stack:
+        n = stack.pop()
+        if isinstance(n, (ast.Yield, ast.YieldFrom)):
+            return True
+        if isinstance(n, (ast.FunctionDef, ast.Lambda, ast.ClassDef)):
+            continue
+        stack.extend(ast.iter_child_nodes(n))
+    return False
+
+
 def has_sym(v):
     if isinstance(v, (tuple, list)):
         return any(has_sym(x) for x in v)
@@ -906,6 +919,9 @@ class Engine(object):
     def do_yield(self, v):
         if self.yields is None:
             raise Unsupported('yield in a function whose contract has no `yields`')
+        if isinstance(self.yields.val, list):
+            self.yields.val.append(v)
+            return
         self.list_append(self.yields, v, self.c.yields)
 
     def st_Pass(self, s, frame):
@@ -2270,6 +2286,12 @@ class Engine(object):
                 return getattr(obj, name)
             except AttributeError:
                 raise PyRaise(PExc(AttributeError, tag=name))
+        if type(obj).__module__.split('.')[0] == self.module.__name__.split('.')[0] and name in getattr(obj, '__dict__', {}):
+            # a real instance of a class of the package handed in as a constant (e.g. a rule object of a definition): its
+            # plain data attributes are read as they are (never written: stores on such objects stay unsupported)
+            v = obj.__dict__[name]
+            if v is None or isinstance(v, (str, int, float, bool, tuple, type)):
+                return v
         raise Unsupported('attribute %s of %r' % (name, obj))
 
     def setattr(self, obj, name, v):
@@ -2502,8 +2524,21 @@ class Engine(object):
                 f.vars[p] = self.ev(defaults[i - nd], fn.frame)
             else:
                 raise PyRaise(PExc(TypeError, tag='missing argument'))
-        if any(isinstance(n, (ast.Yield, ast.YieldFrom)) for n in ast.walk(node)):
-            raise Unsupported('nested generator function')
+        if is_generator_def(node):
+            if not getattr(self, 'in_spec', False):
+                raise Unsupported('nested generator function')
+            # a generator closure called from a contract expression: evaluated as a whole (what iterating it to the end
+            # yields, with the effects of doing so); the code under verification itself never gets this eager reading
+            saved = self.yields
+            self.yields = PList([])
+            try:
+                try:
+                    self.exec_block(node.body, f)
+                except _Return:
+                    pass
+                return PGen(list(self.yields.val))
+            finally:
+                self.yields = saved
         try:
             self.exec_block(node.body, f)
         except _Return as r:
@@ -2641,7 +2676,7 @@ class Engine(object):
             # a method of the receiver's class without a contract of its own: its body is part of the text being
             # verified -- inlined (bounded depth; recursion is not followed)
             depth = getattr(self, '_inline_depth', 0)
-            if depth < 4 and isinstance(a, types.FunctionType) and q != self.c.qualname:
+            if depth < 4 and isinstance(a, types.FunctionType) and (q != self.c.qualname or self.c.hints.get('inline_self_recursion')):
                 from .. import scratch as _scratch
                 pnode, _, _ = load_function(a.__module__, a.__qualname__, _scratch.scratch_src())
                 self.trusted_used['inlined(no contract of its own):' + q] = self.trusted_used.get('inlined(no contract of its own):' + q, 0) + 1
@@ -2817,6 +2852,9 @@ class Engine(object):
             return self.builtin_len(args[0])
         if fn is isinstance:
             return self.builtin_isinstance(args[0], args[1])
+        if fn is issubclass and len(args) == 2 and isinstance(args[0], type) and (isinstance(args[1], type) or (
+                isinstance(args[1], tuple) and all(isinstance(x, type) for x in args[1]))):
+            return issubclass(args[0], args[1])
         if fn is tuple or fn is list:
             if not args:
                 return () if fn is tuple else PList([])
@@ -3022,6 +3060,7 @@ def load_function(modname, funcname, src_root, harness_source=None):
     parts = funcname.split('.')
     body = tree.body
     node = None
+    klass = None
     for p in parts:
         node = None
         for n in body:
@@ -3030,8 +3069,18 @@ def load_function(modname, funcname, src_root, harness_source=None):
                 break
         if node is None:
             raise Unsupported('function %s not found in %s' % (funcname, modname))
+        if isinstance(node, ast.ClassDef):
+            klass = node.name
         body = node.body
     seg = ast.get_source_segment(text, node) or ''
+    if klass is not None:
+        # private name mangling, as the compiler does it for code inside a class body: __x -> _Class__x
+        pre = '_' + klass.lstrip('_')
+        for n in ast.walk(node):
+            if isinstance(n, ast.Attribute) and n.attr.startswith('__') and not n.attr.endswith('__'):
+                n.attr = pre + n.attr
+            elif isinstance(n, ast.Name) and n.id.startswith('__') and not n.id.endswith('__'):
+                n.id = pre + n.id
     sha = hashlib.sha256(seg.encode('utf8')).hexdigest()[:16]
     return node, sha, seg
 
